@@ -7,6 +7,7 @@ From VQ Require Import Glue.Pin_fp_C03.
 From VQ Require Import Model.Blocks Proofs.BlockProofs.
 From VQ Require Import Model.B32 Proofs.B32Saturation.
 From VQ Require Import Model.Alias Proofs.AliasProofs Glue.Pin_w_euclid Glue.Pin_w_cosine.
+From VQ Require Import Glue.Pin_p_rvq_flags.
 Import ListNotations.
 Open Scope R_scope.
 
@@ -332,3 +333,8 @@ Theorem C03_tie_cosine_write_sites_pinned :
   w_cosine.w_cosine = pinned_w_cosine.
 Proof. exact (@Pin_w_cosine.pin_w_cosine). Qed.
 Print Assumptions C03_tie_cosine_write_sites_pinned.
+
+Theorem C03_tie_residual_stack_flags_are_the_constructor_arguments :
+  p_rvq_flags.p_rvq_flags = pinned_p_rvq_flags.
+Proof. exact (@Pin_p_rvq_flags.pin_p_rvq_flags). Qed.
+Print Assumptions C03_tie_residual_stack_flags_are_the_constructor_arguments.
